@@ -687,7 +687,13 @@ func (x *Exec) loopStep(fr *frame, li *loopInfo, latch, head *ssa.BasicBlock) {
 	for i, lr := range li.spec.Reaches {
 		var sites []string
 		if x.trace != nil {
-			if lr.What == "mapupdate" {
+			if lr.What == "send" {
+				for _, sd := range x.trace.sends {
+					if sd.Fn == fr.fn && li.blocks[sd.Instr.Block()] {
+						sites = append(sites, sd.Reach)
+					}
+				}
+			} else if lr.What == "mapupdate" {
 				for _, mu := range x.trace.mapUpdates {
 					if mu.Fn == fr.fn && li.blocks[mu.Instr.Block()] {
 						sites = append(sites, mu.Reach)
